@@ -129,13 +129,17 @@ def work_extract(chunk):
         alpha = {"task": TS, "component": CS, "worker": WS, "facility": FS}[kind]
         timelists = [list(c) for k in range(0, 4) for c in itertools.combinations(range(4), k)]
         seqs = [list(s) for L in range(0, length + 1) for s in itertools.product(alpha, repeat=L)]
-        for logs, same_name in itertools.product(itertools.combinations_with_replacement(range(len(seqs)), nobj), (False, True) if nobj > 1 else (False,)):
+        twin = {"task": BaseComponentState, "component": BaseTaskState, "worker": BaseFacilityState, "facility": BaseWorkerState}[kind]
+        variants = [(False, "member")] + ([(True, "member")] if nobj > 1 else []) + [(False, "int"), (False, "twin")]
+        for logs, (same_name, rep) in itertools.product(itertools.combinations_with_replacement(range(len(seqs)), nobj), variants):
             objs = []
             for i, li in enumerate(logs):
                 nm = "%s%d" % (kind[0], i)
                 # objects may share a name (skills are keyed by name); IDs are what tells them apart
                 o = {"task": BaseTask, "component": BaseComponent, "worker": BaseWorker, "facility": BaseFacility}[kind]("x" if same_name else nm, ID=nm)
-                o.state_record_list = list(seqs[li])
+                # entries as the simulator writes them, as plain ints, or as equal-valued members of the sibling enum
+                # (both occur in logs that were read or appended from JSON); states are compared by value
+                o.state_record_list = [x if rep == "member" else (int(x) if rep == "int" else twin(int(x))) for x in seqs[li]]
                 objs.append(o)
             if kind == "task":
                 cont = BaseWorkflow(objs)
@@ -161,12 +165,12 @@ def work_extract(chunk):
                         col.violation(viol("C19:extract-raised:%s:%s" % (kind, type(e).__name__), {"kind": kind, "logs": [[int(s) for s in seqs[li]] for li in logs], "times": tl, "error": repr(e)}))
                         continue
                     want = [o for o in objs if all(t < len(o.state_record_list) and o.state_record_list[t] == st for t in tl)]
-                    key = (kind, logs, same_name, tuple(tl), int(st))
+                    key = (kind, logs, same_name, rep, tuple(tl), int(st))
                     col.states.add(hash(key))
                     if want and len(want) < len(objs):
                         col.nontrivial.add(hash(key))
                     if sorted(map(id, got)) != sorted(map(id, want)):
-                        col.violation(viol("C19:extract-returns-wrong-objects:%s" % kind, {"kind": kind, "state": int(st), "logs": [[int(s) for s in seqs[li]] for li in logs], "times": tl, "objects_share_one_name": same_name,
+                        col.violation(viol("C19:extract-returns-wrong-objects:%s" % kind, {"kind": kind, "state": int(st), "logs": [[int(s) for s in seqs[li]] for li in logs], "times": tl, "objects_share_one_name": same_name, "log_entries": rep,
                                                                                          "got": [o.ID for o in got], "expected": [o.ID for o in want]}))
     return col
 
@@ -181,8 +185,8 @@ def work_containers(chunk):
         step_r = max(1, len(seqs_r) // 40)
         for a, b in zip(seqs_t[::step_t], seqs_r[::step_r]):
             for margin in (0.0, 0.5, 1.0, 2.0):
-                for unit in (datetime.timedelta(minutes=1), datetime.timedelta(hours=6)):
-                    t1, t2 = BaseTask("t1", ID="t1"), BaseTask("t2", ID="t2")
+                for unit, auto2 in ((datetime.timedelta(minutes=1), False), (datetime.timedelta(hours=6), False), (datetime.timedelta(hours=6), True)):
+                    t1, t2 = BaseTask("t1", ID="t1"), BaseTask("t2", ID="t2", auto_task=auto2)
                     t1.state_record_list, t2.state_record_list = list(a), list(reversed(a))
                     c1 = BaseComponent("c1", ID="c1")
                     c1.state_record_list = [BaseComponentState(int(x)) for x in a]
@@ -197,7 +201,7 @@ def work_containers(chunk):
                                            workplace_list=[BaseWorkplace("wp", ID="wp", facility_list=[f1])])
                     col.evaluations += 1
                     col.checks["c19.container-rows"] += 1
-                    key = ("container", tuple(int(x) for x in a), tuple(int(x) for x in b), margin, str(unit))
+                    key = ("container", tuple(int(x) for x in a), tuple(int(x) for x in b), margin, str(unit), auto2)
                     col.states.add(hash(key))
                     col.nontrivial.add(hash(key))
 
